@@ -33,6 +33,25 @@ let parse (tok : string) : label =
   | ["re"; c; v] -> LRecvEnd (nat c, nat v)
   | _ -> failwith ("bad label " ^ tok)
 
+let mparse (tok : string) : mlabel =
+  match String.split_on_char ':' tok with
+  | ["new"; s] -> MSubNew (nat s)
+  | ["sstop"; s] -> MSubStopped (nat s)
+  | ["add"; s; t] -> MSubAdd (nat s, nat t)
+  | ["pcall"; p; t] -> MPostCall (nat p, nat t)
+  | ["pstop"; p] -> MPostStopped (nat p)
+  | ["snap"; p] -> MPostSnap (nat p)
+  | ["dsent"; p; s] -> MDeliverSent (nat p, nat s)
+  | ["dclosed"; p; s] -> MDeliverClosed (nat p, nat s)
+  | ["dstale"; p; s] -> MDeliverStale (nat p, nat s)
+  | ["pret"; p] -> MPostRet (nat p)
+  | ["del"; s; t] -> MDel (nat s, nat t)
+  | ["closing"; s] -> MClosing (nat s)
+  | ["pclose"; s] -> MPostcClose (nat s)
+  | ["stopb"] -> MStopBegin
+  | ["stope"] -> MStopEnd
+  | _ -> failwith ("bad mlabel " ^ tok)
+
 let uniq l = List.sort_uniq compare l
 
 let handle (toks : string list) : string =
@@ -48,6 +67,16 @@ let handle (toks : string list) : string =
        let rv = String.concat ";" (List.map (fun c ->
            string_of_int c ^ ":" ^ String.concat "." (List.rev_map (fun v -> string_of_int (int_of_nat v)) (st.chs (nat_of_int c)).c_recvd)) chans) in
        Printf.sprintf "accepted d=%d nsent=%s recv=%s panicked=%b" (List.length st.log) ns rv st.panicked)
+  | "mrun" :: ls ->
+    (* TypeMux: accepted d=<deliveries> got=<s:p.p.p;...> (posts delivered to each subscription, sorted: concurrent Posts have no common order) panicked=<b> *)
+    (match mrun_from minit (List.map mparse ls) O with
+     | Inr n -> let i = int_of_nat n in "rejected " ^ string_of_int i ^ " " ^ List.nth ls i
+     | Inl st ->
+       let subs = uniq (List.concat_map (fun t -> match String.split_on_char ':' t with ["new"; s] -> [int_of_string s] | _ -> []) ls) in
+       let lg = List.rev_map (fun (p, s) -> (int_of_nat p, int_of_nat s)) st.mlog in
+       let got = String.concat ";" (List.map (fun s ->
+           string_of_int s ^ ":" ^ String.concat "." (List.map string_of_int (List.sort compare (List.filter_map (fun (p, s') -> if s' = s then Some p else None) lg)))) subs) in
+       Printf.sprintf "accepted d=%d got=%s panicked=%b" (List.length st.mlog) got st.mpanic)
   | "enabled" :: l :: ls ->
     (* is label l enabled after the trace ls? *)
     (match run_from init (List.map parse ls) O with
